@@ -2,14 +2,15 @@
    reading guide in Props/C03.v).  C04_ggsw_cells (Proofs/C04Phase.v) = key_rows_ok with src_ci = m2 (x) Sk ci: cell (row, ci) of the GGSW
    encrypts m2 2^(-(row+1) dsize b) for ci = 0 and s_{ci-1} m2 2^(..) for ci >= 1 (HYPOTHESIS of the phase theorems). *)
 From PV Require Import Base.MachineInt Model.Znx Model.Limbs Model.Flat Model.Ring Model.Poly Model.DftAbs Model.Gadget Model.GadgetOracle Model.C04Run.
-From PV Require Import Model.GadgetSpec Proofs.C07Dft Proofs.C07Ring Proofs.GadgetDecomp Proofs.GadgetPhase Proofs.GadgetBound Proofs.C03Phase Proofs.C04Phase.
+From PV Require Import Model.GadgetSpec Proofs.C07Dft Proofs.C07Ring Proofs.GadgetDecomp Proofs.GadgetPhase Proofs.GadgetBound Proofs.C03Phase Proofs.C04Phase Model.GadgetEnc Proofs.GadgetEnc Proofs.GadgetNorm.
 Open Scope Z_scope.
 
-(* (3c) phase(res) = m2 (x) phase(limbs l < min(a_size, dnum*dsize) of ct) + E + 2^P Iq, on the model, all shapes, both clamp modes *)
+(* (3c) phase(res) = m2 (x) phase(limbs l < min(a_size, dnum*dsize) of ct) + E + 2^P Iq, on the model, all shapes, both modes, any prior accumulator content of the right shape *)
 Theorem C04_external_product_phase :
-  forall (P b : Z) (n rank msize a_size dsize dnum : nat) (clamp : bool) (a : cols_t) (K : pmat) (Sk : nat -> list Z)
+  forall (P b : Z) (n rank msize a_size dsize dnum : nat) (clamp : bool) (a res0 : cols_t) (K : pmat) (Sk : nat -> list Z)
       (m2 : list Z) (e I : nat -> nat -> list Z),
     wf_cols n (S rank) a_size a ->
+    acc_shape (S rank) msize clamp res0 ->
     wf_pmat_in n (dnum * S rank) (msize * S rank) K ->
     (1 <= dsize)%nat ->
     (dsize - 2 <= msize)%nat ->
@@ -22,7 +23,7 @@ Theorem C04_external_product_phase :
     Z.of_nat dnum * Z.of_nat dsize * b <= P ->
     key_rows_ok P b n (S rank) (S rank) msize dsize dnum K Sk (fun ci : nat => pmul m2 (Sk ci)) e I ->
     exists res : cols_t,
-      gadget_product n (S rank) msize (zcols n (S rank) msize) a a_size dsize dnum msize clamp K = Some res /\
+      gadget_product n (S rank) msize res0 a a_size dsize dnum msize clamp K = Some res /\
       wf_cols n (S rank) msize res /\
       phase_f P b n (S rank) msize (limbs_of res) Sk =
       padd
@@ -32,31 +33,31 @@ Theorem C04_external_product_phase :
 Proof. exact C04_external_product_phase_lemma. Qed.
 Print Assumptions C04_external_product_phase.
 
-(* the product started from an un-zeroed accumulator (cmux): functional form when the limbs j >= sz_r(0) of res0 are zero *)
-Theorem C04_gadget_product_spec_clean :
-  forall (n cin cols_out msize a_size dsize dnum : nat) (clamp : bool) (a : cols_t) (m : pmat) (res0 : cols_t),
+(* the product in external-product mode from ANY prior accumulator content of cols_out columns of msize limbs (cmux takes it from scratch) *)
+Theorem C04_gadget_product_spec_any_acc :
+  forall (n cin cols_out msize a_size dsize dnum : nat) (a : cols_t) (m : pmat) (res0 : cols_t),
     wf_cols n cin a_size a ->
     (1 <= dsize)%nat ->
     (dsize - 2 <= msize)%nat ->
-    wf_cols n cols_out msize res0 ->
-    res0_clean n cols_out msize dsize res0 ->
+    length res0 = cols_out ->
+    (forall co : nat, (co < cols_out)%nat -> length (col res0 co) = msize) ->
     exists res : cols_t,
-      gadget_product n cols_out msize res0 a a_size dsize dnum msize clamp m = Some res /\
+      gadget_product n cols_out msize res0 a a_size dsize dnum msize false m = Some res /\
       wf_cols n cols_out msize res /\
       (forall co j : nat,
-       (co < cols_out)%nat -> (j < msize)%nat -> lim (col res co) j = gp_spec n cin cols_out msize a_size dsize dnum clamp (acol n a) m co j).
-Proof. exact gadget_product_spec_clean. Qed.
-Print Assumptions C04_gadget_product_spec_clean.
+       (co < cols_out)%nat -> (j < msize)%nat -> lim (col res co) j = gp_spec n cin cols_out msize a_size dsize dnum false (acol n a) m co j).
+Proof. exact gadget_product_spec_any_acc. Qed.
+Print Assumptions C04_gadget_product_spec_any_acc.
 
-(* cmux before its final normalisation: bit (phase(t) - phase(f)) + phase(f) + E + 2^P Iq *)
+(* cmux before its final normalisation: bit (phase(t) - phase(f)) + phase(f) + E + 2^P Iq; only the shape of res0 matters *)
 Theorem C04_cmux_phase :
   forall (be P b : Z) (n rank res_size t_size f_size dsize dnum msize : nat) (res0 t f : cols_t) (K : pmat) (Sk : nat -> list Z)
       (bit : Z) (e I : nat -> nat -> list Z),
     (1 <= n)%nat ->
     wf_cols n (S rank) t_size t ->
     wf_cols n (S rank) f_size f ->
-    wf_cols n (S rank) msize res0 ->
-    res0_clean n (S rank) msize dsize res0 ->
+    length res0 = S rank ->
+    (forall co : nat, (co < S rank)%nat -> length (col res0 co) = msize) ->
     wf_pmat_in n (dnum * S rank) (msize * S rank) K ->
     (1 <= dsize)%nat ->
     (dsize - 2 <= msize)%nat ->
@@ -92,8 +93,8 @@ Theorem C04_cmux_selects :
     (1 <= n)%nat ->
     wf_cols n (S rank) t_size t ->
     wf_cols n (S rank) f_size f ->
-    wf_cols n (S rank) msize res0 ->
-    res0_clean n (S rank) msize dsize res0 ->
+    length res0 = S rank ->
+    (forall co : nat, (co < S rank)%nat -> length (col res0 co) = msize) ->
     wf_pmat_in n (dnum * S rank) (msize * S rank) K ->
     (1 <= dsize)%nat ->
     (dsize - 2 <= msize)%nat ->
@@ -123,9 +124,10 @@ Print Assumptions C04_cmux_selects.
 
 (* (3c) with Gadget.phase_val when no input limb is lost (a_size <= dnum*dsize): phase(res) = m2 (x) phase(ct) + E + 2^P Iq *)
 Theorem C04_external_product_phase_val :
-  forall (P b : Z) (n msize a_size dsize dnum : nat) (clamp : bool) (a : cols_t) (K : pmat) (sk : list (list Z)) (m2 : list Z)
-      (e I : nat -> nat -> list Z),
+  forall (P b : Z) (n msize a_size dsize dnum : nat) (clamp : bool) (a res0 : cols_t) (K : pmat) (sk : list (list Z))
+      (m2 : list Z) (e I : nat -> nat -> list Z),
     wf_cols n (S (length sk)) a_size a ->
+    acc_shape (S (length sk)) msize clamp res0 ->
     wf_pmat_in n (dnum * S (length sk)) (msize * S (length sk)) K ->
     (1 <= n)%nat ->
     (1 <= dsize)%nat ->
@@ -140,13 +142,134 @@ Theorem C04_external_product_phase_val :
     Z.of_nat dnum * Z.of_nat dsize * b <= P ->
     C04_ggsw_cells P b n (length sk) msize dsize dnum K sk m2 e I ->
     exists res : cols_t,
-      gadget_product n (S (length sk)) msize (zcols n (S (length sk)) msize) a a_size dsize dnum msize clamp K = Some res /\
+      gadget_product n (S (length sk)) msize res0 a a_size dsize dnum msize clamp K = Some res /\
       phase_val P b n sk res =
       padd
         (padd (pmul m2 (phase_val P b n sk a)) (gadget_err P b n (S (length sk)) (S (length sk)) msize dsize dnum (acol n a) K (sk_ext n sk) e))
         (pscale (2 ^ P) (gadget_int b n (S (length sk)) (S (length sk)) msize dsize dnum (acol n a) K (sk_ext n sk) I)).
 Proof. exact C04_external_product_phase_val_lemma. Qed.
 Print Assumptions C04_external_product_phase_val.
+
+(* (5) GGSW encryption (plaintext subtracted from mask column col, Model/GadgetEnc.v) = GGLWE body equation with src_col = m2 (x) Sk col *)
+Theorem C04_enc_body_of_ggsw_body :
+  forall (P b : Z) (n rank msize dsize dnum : nat) (K : pmat) (Sk : nat -> list Z) (m2 : list Z) (e J : nat -> nat -> list Z),
+    (1 <= n)%nat ->
+    wf_pmat_in n (dnum * S rank) (msize * S rank) K ->
+    (forall co : nat, length (Sk co) = n) ->
+    Sk 0%nat = pone n ->
+    length m2 = n ->
+    (forall row ci : nat, length (e row ci) = n) ->
+    (forall row ci : nat, length (J row ci) = n) ->
+    ggsw_body_ok P b n rank msize dsize dnum K Sk m2 e J ->
+    enc_body_ok P b n (S rank) rank msize dsize dnum K Sk (fun ci : nat => pmul m2 (Sk ci)) e J.
+Proof. exact enc_body_of_ggsw_body. Qed.
+Print Assumptions C04_enc_body_of_ggsw_body.
+
+(* (5) hence the GGSW-cell hypothesis *)
+Theorem C04_ggsw_cells_of_ggsw_body :
+  forall (P b : Z) (n rank msize dsize dnum : nat) (K : pmat) (Sk : nat -> list Z) (m2 : list Z) (e J : nat -> nat -> list Z),
+    (1 <= n)%nat ->
+    wf_pmat_in n (dnum * S rank) (msize * S rank) K ->
+    (forall co : nat, length (Sk co) = n) ->
+    Sk 0%nat = pone n ->
+    length m2 = n ->
+    (forall row ci : nat, length (e row ci) = n) ->
+    (forall row ci : nat, length (J row ci) = n) ->
+    ggsw_body_ok P b n rank msize dsize dnum K Sk m2 e J ->
+    key_rows_ok P b n (S rank) (S rank) msize dsize dnum K Sk (fun ci : nat => pmul m2 (Sk ci)) e J.
+Proof. exact ggsw_cells_of_ggsw_body. Qed.
+Print Assumptions C04_ggsw_cells_of_ggsw_body.
+
+(* (5) the external-product phase theorems with the body equations of ggsw_encrypt_sk instead of the GGSW-cell hypothesis *)
+Theorem C04_external_product_phase_enc :
+  forall (P b : Z) (n msize a_size dsize dnum : nat) (clamp : bool) (a res0 : cols_t) (K : pmat) (sk : list (list Z))
+      (m2 : list Z) (e J : nat -> nat -> list Z),
+    wf_cols n (S (length sk)) a_size a ->
+    acc_shape (S (length sk)) msize clamp res0 ->
+    wf_pmat_in n (dnum * S (length sk)) (msize * S (length sk)) K ->
+    (1 <= n)%nat ->
+    (1 <= dsize)%nat ->
+    (dsize - 2 <= msize)%nat ->
+    (forall s : list Z, In s sk -> length s = n) ->
+    length m2 = n ->
+    (forall row ci : nat, length (e row ci) = n) ->
+    (forall row ci : nat, length (J row ci) = n) ->
+    0 <= b ->
+    Z.of_nat msize * b <= P ->
+    Z.of_nat dnum * Z.of_nat dsize * b <= P ->
+    ggsw_body_ok P b n (length sk) msize dsize dnum K (sk_ext n sk) m2 e J ->
+    exists res : cols_t,
+      gadget_product n (S (length sk)) msize res0 a a_size dsize dnum msize clamp K = Some res /\
+      wf_cols n (S (length sk)) msize res /\
+      phase_f P b n (S (length sk)) msize (limbs_of res) (sk_ext n sk) =
+      padd
+        (padd (pmul m2 (phase_f P b n (S (length sk)) (Nat.min a_size (dnum * dsize)) (acol n a) (sk_ext n sk)))
+           (gadget_err P b n (S (length sk)) (S (length sk)) msize dsize dnum (acol n a) K (sk_ext n sk) e))
+        (pscale (2 ^ P) (gadget_int b n (S (length sk)) (S (length sk)) msize dsize dnum (acol n a) K (sk_ext n sk) J)).
+Proof. exact C04_external_product_phase_enc_lemma. Qed.
+Print Assumptions C04_external_product_phase_enc.
+
+Theorem C04_external_product_phase_val_enc :
+  forall (P b : Z) (n msize a_size dsize dnum : nat) (clamp : bool) (a res0 : cols_t) (K : pmat) (sk : list (list Z))
+      (m2 : list Z) (e J : nat -> nat -> list Z),
+    wf_cols n (S (length sk)) a_size a ->
+    acc_shape (S (length sk)) msize clamp res0 ->
+    wf_pmat_in n (dnum * S (length sk)) (msize * S (length sk)) K ->
+    (1 <= n)%nat ->
+    (1 <= dsize)%nat ->
+    (dsize - 2 <= msize)%nat ->
+    (forall s : list Z, In s sk -> length s = n) ->
+    length m2 = n ->
+    (forall row ci : nat, length (e row ci) = n) ->
+    (forall row ci : nat, length (J row ci) = n) ->
+    0 <= b ->
+    Z.of_nat msize * b <= P ->
+    Z.of_nat dnum * Z.of_nat dsize * b <= P ->
+    ggsw_body_ok P b n (length sk) msize dsize dnum K (sk_ext n sk) m2 e J ->
+    (a_size <= dnum * dsize)%nat ->
+    exists res : cols_t,
+      gadget_product n (S (length sk)) msize res0 a a_size dsize dnum msize clamp K = Some res /\
+      phase_val P b n sk res =
+      padd
+        (padd (pmul m2 (phase_val P b n sk a)) (gadget_err P b n (S (length sk)) (S (length sk)) msize dsize dnum (acol n a) K (sk_ext n sk) e))
+        (pscale (2 ^ P) (gadget_int b n (S (length sk)) (S (length sk)) msize dsize dnum (acol n a) K (sk_ext n sk) J)).
+Proof. exact C04_external_product_phase_val_enc_lemma. Qed.
+Print Assumptions C04_external_product_phase_val_enc.
+
+(* (6) Gadget.glwe_external_product (input radix = GGSW radix) with the final normalisation; per-column normalize_value_ok is a hypothesis *)
+Theorem C04_glwe_external_product_phase_final :
+  forall (be P b rb : Z) (n msize a_size res_size dsize dnum : nat) (a : cols_t) (K : pmat) (sk : list (list Z)) (m2 : list Z)
+      (e I : nat -> nat -> list Z) (Sb : Z),
+    wf_cols n (S (length sk)) a_size a ->
+    wf_pmat_in n (dnum * S (length sk)) (msize * S (length sk)) K ->
+    (1 <= n)%nat ->
+    (1 <= dsize)%nat ->
+    (dsize - 2 <= msize)%nat ->
+    (forall s : list Z, In s sk -> length s = n) ->
+    (forall s : list Z, In s sk -> pnorm s <= Sb) ->
+    length m2 = n ->
+    (forall row ci : nat, length (e row ci) = n) ->
+    (forall row ci : nat, length (I row ci) = n) ->
+    0 <= b ->
+    Z.of_nat msize * b <= P ->
+    Z.of_nat dnum * Z.of_nat dsize * b <= P ->
+    C04_ggsw_cells P b n (length sk) msize dsize dnum K sk m2 e I ->
+    (forall big : cols_t,
+     gadget_product n (S (length sk)) msize (zcols n (S (length sk)) msize) a a_size dsize dnum msize false K = Some big ->
+     forall co : nat, (co < S (length sk))%nat -> normalize_value_ok (wbig be) P n rb b res_size (col big co)) ->
+    exists (res : cols_t) (R Itot : list Z),
+      glwe_external_product be n b b rb (length sk) a_size res_size dsize dnum msize a K = Some res /\
+      wf_cols n (S (length sk)) res_size res /\
+      length R = n /\
+      length Itot = n /\
+      phase_val P rb n sk res =
+      padd
+        (padd
+           (padd (pmul m2 (phase_f P b n (S (length sk)) (Nat.min a_size (dnum * dsize)) (acol n a) (sk_ext n sk)))
+              (gadget_err P b n (S (length sk)) (S (length sk)) msize dsize dnum (acol n a) K (sk_ext n sk) e)) R) (pscale (2 ^ P) Itot) /\
+      pnorm R <= (1 + Z.of_nat (length sk) * Z.of_nat n * Sb) * 2 ^ (P - Z.of_nat res_size * rb).
+Proof. exact C04_glwe_external_product_phase_final_lemma. Qed.
+Print Assumptions C04_glwe_external_product_phase_final.
 
 (* C04_ggsw_cells: cell (row, col) of a GGSW of m2 under sk decrypts to m2 2^(P-(row+1) dsize b) (col = 0) resp.
    s_{col-1} (x) m2 2^(..) (col >= 1) plus its error e_{row,col} (phase convention ct[0] + sum ct[i+1] (x) s_i: the sign is +).
@@ -178,8 +301,11 @@ Example C04_instance_runs :
 Proof. exact C04_instance_runs_lemma. Qed.
 
 Example C04_cmux_hypotheses_satisfiable :
-  (1 <= 2)%nat /\ wf_cols 2 2 2 ex4_ct /\ wf_cols 2 2 2 ex4_f /\ wf_cols 2 2 2 (zcols 2 2 2) /\ res0_clean 2 2 2 1 (zcols 2 2 2) /\
+  (1 <= 2)%nat /\ wf_cols 2 2 2 ex4_ct /\ wf_cols 2 2 2 ex4_f /\ length (zcols 2 2 2) = 2%nat /\ (forall co, (co < 2)%nat -> length (col (zcols 2 2 2) co) = 2%nat) /\
   wf_pmat_in 2 (2 * 2) (2 * 2) (ex4_K (pscale 1 (pone 2))) /\
   key_rows_ok 8 4 2 2 2 2 1 2 (ex4_K (pscale 1 (pone 2))) (sk_ext 2 ex4_sk) (fun ci => pmul (pscale 1 (pone 2)) (sk_ext 2 ex4_sk ci)) ex4_zero ex4_zero /\
   (1 = 0 \/ 1 = 1) /\ (1 = 1 -> (2 <= Nat.min 2 (2 * 1))%nat /\ (2 <= 2)%nat).
 Proof. exact C04_cmux_hypotheses_satisfiable_lemma. Qed.
+
+Example C04_ggsw_body_satisfiable : ggsw_body_ok 8 4 2 1 2 1 2 (ex4_K ex4_m2) (sk_ext 2 ex4_sk) ex4_m2 ex4_zero ex4_zero.
+Proof. exact ggsw_body_satisfiable_lemma. Qed.
